@@ -84,7 +84,8 @@ def main():
     for pid in sorted(P):
         level, tech, text, note, ref = P[pid]
         d = os.path.join(HERE, "harness", "c" + pid[1:].lower(), "verif.json")
-        if not os.path.exists(d):
+        ready = open(os.path.join(HERE, "harness", "READY")).read().split()
+        if not os.path.exists(d) or pid not in ready:
             na.append({"property_id": pid, "reason": "monitor not built yet in this revision of /verif (runtime monitoring does apply; see DESIGN.md section " + ref + ")"})
             continue
         cfg = json.load(open(d))
